@@ -20,20 +20,41 @@ from fpy2.transform import ConstFold, CopyPropagate, DeadCodeEliminate
 from .. import core, equiv, progrun
 
 PROFILES = [
+    {'copies': 0.1, 'consts': 0.4, 'with': 0.45, 'dead': 0.1, 'tuples': 0.15, 'lists': 0.1, 'calls': 0.05},
     {'copies': 0.25, 'consts': 0.2, 'dead': 0.15, 'with': 0.3, 'calls': 0.1},
     {'copies': 0.3, 'loops': 0.3, 'lists': 0.3, 'dead': 0.1, 'consts': 0.1},
     {'consts': 0.35, 'with': 0.4, 'dead': 0.2, 'copies': 0.1, 'early_return': 0.25},
 ]
 
 HAND = {
+    'hand_dyn_ctx': '''@fp.fpy
+def hand_dyn_ctx(x: fp.Real, y: fp.Real, xs: list[fp.Real], k: fp.Real):
+    with fp.MPFloatContext(3):
+        with fp.MPFloatContext(k):
+            a = 1.25 * 3 + 0.1
+        with fp.MPFixedContext(-k, fp.RM.RTZ):
+            b = 0.3 * 3
+        c = 1.25 * 3 + 0.1
+    return (a, b + x, c)''',
+    'hand_nested_tuple': '''@fp.fpy
+def hand_nested_tuple(x: fp.Real, y: fp.Real, xs: list[fp.Real], k: fp.Real):
+    a = x
+    b = y
+    for e in xs:
+        if e > 0:
+            a, b = (b + e, a)
+    if x > 0:
+        if y > 0:
+            a, b = (y + 1, x * 2)
+    return a + b''',
     'hand_copy_redef': '''@fp.fpy
-def hand_copy_redef(x: fp.Real, y: fp.Real, xs: list[fp.Real]):
+def hand_copy_redef(x: fp.Real, y: fp.Real, xs: list[fp.Real], k: fp.Real):
     t = x
     x = x + 1
     u = t * y
     return u + x''',
     'hand_alias_write': '''@fp.fpy
-def hand_alias_write(x: fp.Real, y: fp.Real, xs: list[fp.Real]):
+def hand_alias_write(x: fp.Real, y: fp.Real, xs: list[fp.Real], k: fp.Real):
     zs = [x, y, 1]
     ys = zs
     z = zs[0]
@@ -41,7 +62,7 @@ def hand_alias_write(x: fp.Real, y: fp.Real, xs: list[fp.Real]):
     w = zs[0]
     return w + z''',
     'hand_fold_ctx': '''@fp.fpy
-def hand_fold_ctx(x: fp.Real, y: fp.Real, xs: list[fp.Real]):
+def hand_fold_ctx(x: fp.Real, y: fp.Real, xs: list[fp.Real], k: fp.Real):
     a = 1.25 * 3
     with fp.MPFixedContext(-1, fp.RM.RTZ):
         b = 1.25 * 3
@@ -49,7 +70,7 @@ def hand_fold_ctx(x: fp.Real, y: fp.Real, xs: list[fp.Real]):
             c = 1.25 * 3 + 0.1
     return (a, b, c + x)''',
     'hand_dead_effect': '''@fp.fpy
-def hand_dead_effect(x: fp.Real, y: fp.Real, xs: list[fp.Real]):
+def hand_dead_effect(x: fp.Real, y: fp.Real, xs: list[fp.Real], k: fp.Real):
     zs = [x, y]
     ys = zs
     d = 5
